@@ -93,7 +93,8 @@ Lemma dom_parts :
   (forall t, In t (input_types p) -> has_result2 (rty_of t) = false) /\
   (forall f e, In f (all_fns p) -> In e (fn_emits f) ->
       match e with
-      | PVar v => exists t, lookup_param v (fn_params f) = Some t /\ bare_named t = true
+      | PVar v => (exists t, lookup_param v (fn_params f) = Some t /\ bare_named t = true) \/
+                  (lookup_param v (fn_params f) = None /\ is_ident v = true /\ custom_name v = false)
       | PStruct n => is_ident n = true
       | POther => False end).
 Proof.
@@ -108,7 +109,8 @@ Proof.
   - intros t Ht. specialize (Hin t Ht). apply negb_true_iff in Hin. auto.
   - intros f e Hf He. specialize (Hev f Hf). rewrite forallb_forall in Hev. specialize (Hev e He).
     destruct e as [v|n|]; auto; [|discriminate].
-    destruct (lookup_param v (fn_params f)) as [t|]; [|discriminate]. exists t. auto.
+    destruct (lookup_param v (fn_params f)) as [t|]; [left; exists t; auto|].
+    right. apply andb_true_iff in Hev as [H1 H2]. apply negb_true_iff in H2. auto.
 Qed.
 
 
@@ -235,7 +237,8 @@ Proof.
     assert (Hes : In (payload_type f e) (root_strings p)).
     { unfold root_strings. apply in_or_app. right. unfold events. apply in_flat_map. exists f. split; auto. apply in_map. auto. }
     destruct e as [v|n|]; [| |contradiction].
-    + destruct Hev as (t & Hl & Hb). destruct (bare_facts t Hb) as (n & Hid & Hln & Hleaf).
+    + destruct Hev as [(t & Hl & Hb)|(Hl & _ & _)]; [|cbn [payload_names] in Hy; rewrite Hl in Hy; contradiction].
+      destruct (bare_facts t Hb) as (n & Hid & Hln & Hleaf).
       cbn [payload_names] in Hy. rewrite Hl, Hleaf in Hy. destruct Hy as [<-|[]].
       apply (harvest_in _ _ Hes). cbn [payload_type]. rewrite lookup_sym_param, Hl. cbn [option_map]. rewrite Hln.
       apply (bare_agree n n Hid Hg). auto.
@@ -250,14 +253,18 @@ Proof.
   - intros (s & Hs & Hy). apply smemb_true in Hy. apply in_flat_map in Hs as (f & Hf & Hs). apply in_map_iff in Hs as (e & <- & He).
     apply in_flat_map. exists f. split; auto. apply in_flat_map. exists e. split; auto.
     specialize (Hev f e Hf He). destruct e as [v|n|]; [| |contradiction].
-    + destruct Hev as (t & Hl & Hb). destruct (bare_facts t Hb) as (n & Hid & Hln & Hleaf).
+    + destruct Hev as [(t & Hl & Hb)|(Hl & Hid & Hcn)].
+      2: { exfalso. cbn [payload_type] in Hy. rewrite lookup_sym_param, Hl in Hy. cbn [option_map] in Hy.
+           apply (bare_agree v y Hid Hg) in Hy. subst y. destruct Hg as [Hc _]. congruence. }
+      destruct (bare_facts t Hb) as (n & Hid & Hln & Hleaf).
       cbn [payload_type] in Hy. rewrite lookup_sym_param, Hl in Hy. cbn [option_map] in Hy. rewrite Hln in Hy.
       apply (bare_agree n y Hid Hg) in Hy. subst y. cbn [payload_names]. rewrite Hl, Hleaf. left. auto.
     + cbn [payload_type] in Hy. apply (bare_agree n y Hev Hg) in Hy. subst y. left. auto.
   - intros H. apply in_flat_map in H as (f & Hf & Hy). apply in_flat_map in Hy as (e & He & Hy).
     exists (payload_type f e). split; [apply in_flat_map; exists f; split; auto; apply in_map; auto|].
     apply smemb_true. specialize (Hev f e Hf He). destruct e as [v|n|]; [| |contradiction].
-    + destruct Hev as (t & Hl & Hb). destruct (bare_facts t Hb) as (n & Hid & Hln & Hleaf).
+    + destruct Hev as [(t & Hl & Hb)|(Hl & _ & _)]; [|cbn [payload_names] in Hy; rewrite Hl in Hy; contradiction].
+      destruct (bare_facts t Hb) as (n & Hid & Hln & Hleaf).
       cbn [payload_names] in Hy. rewrite Hl, Hleaf in Hy. destruct Hy as [<-|[]].
       cbn [payload_type]. rewrite lookup_sym_param, Hl. cbn [option_map]. rewrite Hln. apply (bare_agree n n Hid Hg). auto.
     + cbn [payload_names] in Hy. destruct Hy as [<-|[]]. cbn [payload_type]. apply (bare_agree n n Hev Hg). auto.
